@@ -330,9 +330,56 @@ fn initialiser_program(rng: &mut Rng) -> String {
     }
 }
 
+/// Structs with base types whose members, methods and inherited members share names, and every way of naming them afterwards
+fn struct_members_program(rng: &mut Rng) -> String {
+    const NAMES: &[&str] = &["x", "y", "m", "get", "x", "m"];
+    let member = |rng: &mut Rng, methods: bool| -> String {
+        let n = *rng.pick(NAMES);
+        // base types mostly hold variables, derived types mostly methods
+        let kind = if rng.chance(3, 4) { if methods { 2 + rng.below(2) } else { rng.below(2) } } else { rng.below(5) };
+        match kind {
+            0 => format!("    int {};\n", n),
+            1 => format!("    float {};\n", n),
+            2 => format!("    int {}() {{ return 1; }}\n", n),
+            3 => format!("    int {}(int a) {{ return a; }}\n", n),
+            _ => format!("    static const int {} = 2;\n", n),
+        }
+    };
+    let mut text = String::from("struct B\n{\n");
+    for _ in 0..1 + rng.below(3) {
+        text.push_str(&member(rng, false));
+    }
+    text.push_str("};\nstruct C\n{\n");
+    for _ in 0..rng.below(3) {
+        text.push_str(&member(rng, false));
+    }
+    let bases = *rng.pick(&[" : B", " : B", " : B", " : B, C", " : C", "", " : B, B", " : D"]);
+    text.push_str(&format!("}};\nstruct D{}\n{{\n", bases));
+    for _ in 0..rng.below(4) {
+        text.push_str(&member(rng, true));
+    }
+    text.push_str("};\nvoid f()\n{\n    D d;\n");
+    for _ in 0..1 + rng.below(4) {
+        let n = *rng.pick(NAMES);
+        text.push_str(&match rng.below(6) {
+            0 => format!("    d.{};\n", n),
+            1 => format!("    d.{}();\n", n),
+            2 => format!("    d.{}(1);\n", n),
+            3 => format!("    d.{} = 1;\n", n),
+            4 => format!("    D::{};\n", n),
+            _ => format!("    int v_{} = d.{} + d.{}();\n", n, n, n),
+        });
+    }
+    text.push_str("}\n");
+    text
+}
+
 fn grammar_case(rng: &mut Rng) -> Case {
     if rng.chance(1, 8) {
         return single("grammar:initialisers", initialiser_program(rng));
+    }
+    if rng.chance(1, 8) {
+        return single("grammar:struct-members", struct_members_program(rng));
     }
     if rng.chance(1, 6) {
         return single("grammar:resource-positions", resource_positions_program(rng));
